@@ -111,7 +111,11 @@ def inc_driver(cfg):
         storage = make_storage(cfg['storage'], cfg['r'])
         for i in range(cfg['r'] - 1):
             storage.update(row(i, names), None)
-        imp = MarginalImputer(model, cfg['strategy'], storage) if cfg['strategy'] != 'libdefault' else None
+        if cfg.get('switch'):       # built with the OTHER strategy, the public attribute reassigned afterwards
+            imp = MarginalImputer(model, 'product' if cfg['strategy'] == 'joint' else 'joint', storage)
+            imp.sampling_strategy = cfg['strategy']
+        else:
+            imp = MarginalImputer(model, cfg['strategy'], storage) if cfg['strategy'] != 'libdefault' else None
         cls = IncrementalSage if cfg['expl'] == 'sage' else IncrementalPFI
         ex = cls(model, loss, list(names), storage=storage, imputer=imp, n_inner_samples=cfg['n'],
                  dynamic_setting=True, smoothing_alpha=1)
@@ -208,6 +212,9 @@ def plan(tier):
                 for model in ('scalar', 'multi') if (deep or (d, r, n) == (2, 3, 2)) else ('scalar',):
                     tasks.append(('inc', dict(expl=expl, strategy=strategy, d=d, r=r, n=n, storage='Batch', H=0,
                                               model=model)))
+            if strategy != 'libdefault':
+                tasks.append(('inc', dict(expl=expl, strategy=strategy, d=3, r=2, n=1, storage='Batch', H=0, model='scalar',
+                                          switch=True)))
             # histories: explained calls and in-place replacements before the explanation under test
             for st, r in (('Geometric', 3), ('Interval', 2), ('Batch', 2)):
                 tasks.append(('inc', dict(expl=expl, strategy=strategy if strategy != 'libdefault' else 'joint',
